@@ -13,7 +13,7 @@ for s in $SEEDS; do
     ref=""
     for t in 1 4 16; do for rep in a b; do
       f=$tmp/$b.$s.$t.$rep
-      ./target/$b/sim fingerprints --each --seed $s --from 0 --to $N --threads $t > $f &
+      ./target/t-$b/$b/sim fingerprints --each --seed $s --from 0 --to $N --threads $t > $f &
     done; done
     wait
     for t in 1 4 16; do for rep in a b; do
